@@ -553,6 +553,198 @@ func runtimeNames() []string {
 	return out
 }
 
+
+// switchCasesOn returns, for the first `switch <tagExpr>` in fd whose tag satisfies match,
+// the case clauses.
+func switchOn(fd *ast.FuncDecl, match func(ast.Expr) bool) []*ast.CaseClause {
+	var out []*ast.CaseClause
+	found := false
+	ast.Inspect(fd, func(n ast.Node) bool {
+		sw, ok := n.(*ast.SwitchStmt)
+		if !ok || found || sw.Tag == nil || !match(sw.Tag) {
+			return true
+		}
+		found = true
+		for _, c := range sw.Body.List {
+			out = append(out, c.(*ast.CaseClause))
+		}
+		return false
+	})
+	if !found {
+		die("%s: expected switch not found", fd.Name.Name)
+	}
+	return out
+}
+
+// whitespace: the character cases of skipWhitespace (skipped bytes, comment opener)
+func whitespace() (ws []byte, comment []byte) {
+	fd := funcDecl("lexer.go", "Lexer", "skipWhitespace")
+	for _, cc := range switchOn(fd, isPeekCall) {
+		if cc.List == nil {
+			continue
+		}
+		var chars []byte
+		for _, e := range cc.List {
+			ch, ok := charLit(e)
+			if !ok {
+				die("skipWhitespace: case label is not a character")
+			}
+			chars = append(chars, ch)
+		}
+		if len(cc.Body) == 1 && isAdvanceStmt(cc.Body[0]) {
+			ws = append(ws, chars...)
+		} else if _, ok := cc.Body[0].(*ast.ForStmt); ok && len(cc.Body) == 1 {
+			comment = append(comment, chars...)
+		} else {
+			die("skipWhitespace: unrecognised case body")
+		}
+	}
+	return
+}
+
+// escapes: evalString's `switch str[i]` : escape letter -> produced byte
+func escapes() [][2]byte {
+	fd := funcDecl("evaluator.go", "Evaluator", "evalString")
+	var out [][2]byte
+	for _, cc := range switchOn(fd, func(e ast.Expr) bool { _, ok := e.(*ast.IndexExpr); return ok }) {
+		if cc.List == nil {
+			continue
+		}
+		if len(cc.List) != 1 || len(cc.Body) != 1 {
+			die("evalString: unexpected escape case")
+		}
+		from, ok := charLit(cc.List[0])
+		if !ok {
+			die("evalString: escape label is not a character")
+		}
+		as, ok := cc.Body[0].(*ast.AssignStmt)
+		if !ok || len(as.Rhs) != 1 {
+			die("evalString: unexpected escape body")
+		}
+		call, ok := as.Rhs[0].(*ast.CallExpr)
+		if !ok || len(call.Args) != 2 {
+			die("evalString: escape body is not append(buf, c)")
+		}
+		to, ok := charLit(call.Args[1])
+		if !ok {
+			die("evalString: appended value is not a character")
+		}
+		out = append(out, [2]byte{from, to})
+	}
+	return out
+}
+
+// isTypeNames: the string cases of the `is` operator in evalBinaryExpr
+func isTypeNames() []string {
+	fd := funcDecl("evaluator.go", "Evaluator", "evalBinaryExpr")
+	var out []string
+	for _, cc := range switchOn(fd, func(e ast.Expr) bool { id, ok := e.(*ast.Ident); return ok && id.Name == "s" }) {
+		for _, e := range cc.List {
+			s, ok := strLit(e)
+			if !ok {
+				die("evalBinaryExpr: type name label is not a string")
+			}
+			out = append(out, s)
+		}
+	}
+	return out
+}
+
+// printfDirectives: the character cases of the directive switch in nativePrintf
+func printfDirectives() []byte {
+	fd := funcDecl("runtime.go", "", "nativePrintf")
+	var out []byte
+	for _, cc := range switchOn(fd, func(e ast.Expr) bool {
+		ix, ok := e.(*ast.IndexExpr)
+		if !ok {
+			return false
+		}
+		id, ok := ix.X.(*ast.Ident)
+		return ok && id.Name == "fmtStr"
+	}) {
+		for _, e := range cc.List {
+			ch, ok := charLit(e)
+			if !ok {
+				die("nativePrintf: directive label is not a character")
+			}
+			out = append(out, ch)
+		}
+	}
+	return out
+}
+
+// compoundOps: rewriteCompundAssingment's switch: compound token -> base operator
+func compoundOps() [][2]string {
+	fd := funcDecl("parser.go", "Parser", "rewriteCompundAssingment")
+	var out [][2]string
+	for _, cc := range switchOn(fd, func(e ast.Expr) bool {
+		sel, ok := e.(*ast.SelectorExpr)
+		return ok && sel.Sel.Name == "Tag"
+	}) {
+		if cc.List == nil {
+			continue
+		}
+		if len(cc.List) != 1 || len(cc.Body) != 1 {
+			die("rewriteCompundAssingment: unexpected case")
+		}
+		from, ok1 := cc.List[0].(*ast.Ident)
+		as, ok2 := cc.Body[0].(*ast.AssignStmt)
+		if !ok1 || !ok2 || len(as.Rhs) != 1 {
+			die("rewriteCompundAssingment: unexpected case shape")
+		}
+		to, ok := as.Rhs[0].(*ast.Ident)
+		if !ok {
+			die("rewriteCompundAssingment: unexpected right-hand side")
+		}
+		out = append(out, [2]string{from.Name, to.Name})
+	}
+	return out
+}
+
+// arities: for every native in the prototype maps and runtime.go, the N of checkArgCount(v, N)
+// (-1 when the native does not call checkArgCount)
+func arities() map[string]int64 {
+	out := map[string]int64{}
+	scan := func(name string, body ast.Node) {
+		n := int64(-1)
+		ast.Inspect(body, func(x ast.Node) bool {
+			call, ok := x.(*ast.CallExpr)
+			if !ok {
+				return true
+			}
+			if id, ok := call.Fun.(*ast.Ident); ok && id.Name == "checkArgCount" && len(call.Args) == 2 {
+				n = constInt(call.Args[1], "checkArgCount in "+name)
+			}
+			return true
+		})
+		out[name] = n
+	}
+	for _, p := range []struct{ fn, prefix string }{{"getArrayPrototype", "array."}, {"getObjPrototype", "object."},
+		{"getStrPrototype", "string."}, {"getNumPrototype", "number."}} {
+		fd := funcDecl("prototypes.go", "", p.fn)
+		ast.Inspect(fd, func(n ast.Node) bool {
+			cl, ok := n.(*ast.CompositeLit)
+			if !ok {
+				return true
+			}
+			if _, ok := cl.Type.(*ast.MapType); !ok {
+				return true
+			}
+			for _, el := range cl.Elts {
+				kv := el.(*ast.KeyValueExpr)
+				if s, ok := strLit(kv.Key); ok {
+					scan(p.prefix+s, kv.Value)
+				}
+			}
+			return false
+		})
+	}
+	for _, f := range []struct{ fn, name string }{{"nativePrintf", "printf"}, {"nativeJson", "json"}, {"nativeNum", "num"}} {
+		scan(f.name, funcDecl("runtime.go", "", f.fn))
+	}
+	return out
+}
+
 func coqStr(s string) string {
 	for _, c := range []byte(s) {
 		if c < 32 || c > 126 || c == '"' {
@@ -740,6 +932,83 @@ func main() {
 			w("; ")
 		}
 		w("%s", coqStr(n))
+	}
+	w(" ].\n\n")
+
+	ws, comment := whitespace()
+	w("(* Lexer.skipWhitespace: skipped bytes, and the byte that opens a comment up to the line end *)\n")
+	w("Definition ws_chars : list byte := [ ")
+	for i, c := range ws {
+		if i > 0 {
+			w("; ")
+		}
+		w("%d%%N", c)
+	}
+	w(" ].\nDefinition comment_chars : list byte := [ ")
+	for i, c := range comment {
+		if i > 0 {
+			w("; ")
+		}
+		w("%d%%N", c)
+	}
+	w(" ].\n\n")
+
+	w("(* Evaluator.evalString: escape letter -> byte produced (anything else is an error) *)\n")
+	w("Definition escape_table : list (byte * byte) := [ ")
+	for i, e := range escapes() {
+		if i > 0 {
+			w("; ")
+		}
+		w("(%d%%N, %d%%N)", e[0], e[1])
+	}
+	w(" ].\n\n")
+
+	w("(* evalBinaryExpr: the type names of `is` (besides the keywords function and null) *)\n")
+	w("Definition is_type_names : list bytes := [ ")
+	for i, n := range isTypeNames() {
+		if i > 0 {
+			w("; ")
+		}
+		w("%s", coqStr(n))
+	}
+	w(" ].\n\n")
+
+	w("(* nativePrintf: directive characters *)\n")
+	w("Definition printf_directives : list byte := [ ")
+	for i, c := range printfDirectives() {
+		if i > 0 {
+			w("; ")
+		}
+		w("%d%%N", c)
+	}
+	w(" ].\n\n")
+
+	w("(* rewriteCompundAssingment: compound assignment token -> operator *)\n")
+	w("Definition compound_table : list (tag * tag) := [ ")
+	for i, c := range compoundOps() {
+		if i > 0 {
+			w("; ")
+		}
+		w("(T%s, T%s)", c[0], c[1])
+	}
+	w(" ].\n\n")
+
+	ar := arities()
+	var arNames []string
+	for k := range ar {
+		arNames = append(arNames, k)
+	}
+	sort.Strings(arNames)
+	w("(* checkArgCount(v, N) of every native (-1: no exact count is demanded) *)\n")
+	w("Definition native_arities : list (bytes * Z) :=\n  [ ")
+	for i, k := range arNames {
+		if i > 0 {
+			w("; ")
+			if i%4 == 0 {
+				w("\n    ")
+			}
+		}
+		w("(%s, (%d)%%Z)", coqStr(k), ar[k])
 	}
 	w(" ].\n\n")
 
